@@ -46,6 +46,7 @@ def spec_items(tier):
     R3 = [F(-1), F(0), F(1)]
     G = [F(1, 2), F(9, 10), F(1)]
     yield from build.enum_mdps(1, [('a',), ('b',), ('a', 'b')], 0, R3, [(), (0,)], build.INIT_MENU[1], G)
+    yield from (it for it in build.edge_mdps() if it[5] > 0)
     if tier == 'quick':
         yield from build.enum_mdps(2, AS, 1, [F(-1), F(0)], [(), (1,)], [build.INIT_MENU[2][0], build.INIT_MENU[2][2]],
                                    [F(9, 10), F(1)])
@@ -61,7 +62,7 @@ def spec_items(tier):
 
 def items(tier, seed):
     for i, it in enumerate(spec_items(tier)):
-        yield (it, (i + seed) % len(build.STATE_LABELINGS), (i // 2 + seed) % 3)
+        yield (it, (i + seed) % len(SLAB), (i // 2 + seed) % 3)
 
 
 LATTICE = {1: [(F(1),)],
@@ -71,7 +72,11 @@ SLAB = ['int', 'rev', 'str', 'mix', 'tup', 'fd']
 ALAB = ['ab', 'rev', 'ab', 'mix', 'rev', 'fd']
 
 
-def _cmp(got, want, tol=1e-9):
+TOL = [1e-9]
+
+
+def _cmp(got, want, tol=None):
+    tol = TOL[0] if tol is None else tol
     got = float(got)
     if want == NEG_INF or want == POS_INF:
         return got == want
@@ -92,6 +97,8 @@ def check(item, tier):
         return r
     A = spec.absorbing()
     n = spec.n
+    minp = min([p for s_ in range(n) for a in spec.acts[s_] for p in spec.T[s_][a].values()] + [F(1)])
+    TOL[0] = max(1e-9, 1e-13 / float(minp))     # direct solves lose ~1/min-probability digits on near-singular chains
     with warnings.catch_warnings():
         warnings.simplefilter('ignore')
         np.seterr(all='ignore')
